@@ -8,7 +8,7 @@ CFG = dict(
                "from a fresh decode of the immutable serialized profile for any (mutating) report function; any interleaving of web request handlers "
                "gives each request the configuration it gets alone and leaves the option state alone. The model is tied to the code by running the "
                "REAL interactive loop (scripted plugin.UI, real report generation) and the REAL web handlers (httptest) on generated histories: "
-               "option state after every line and (command, configuration) of every report must equal the model's.",
+               "option state after every line and (command, configuration) of every report must equal the model's. End-to-end layer: the histories also run through driver.PProf (real parseFlags, fetch pipeline, real binutils object tool, HTTPServer hook); the option state the flags produce is modelled (M_Flags) and compared.",
     level_note="Partial for mutation leaks: that report generation does not leak through shared pointers is checked, not proved, by the "
                "metamorphic oracle on the real code (same command in a fresh session with the same options must give byte-identical output; the "
                "profile handed to each report must deep-equal the pristine decode; the loaded profile must be unchanged afterwards). Report "
@@ -23,7 +23,11 @@ CFG = dict(
          "relative names and different contents, profiles naming them through a remote prefix; histories mix source_path= / trim_path= "
          "assignments with list / weblist commands (sessions) or with /source and /top requests (web; assignments via configure); here the fresh "
          "reference of the metamorphic oracle runs in a CHILD PROCESS (harness c10-ref) so that no process-wide cache is shared with it. "
-         "distinct = sha256 of the input term; non-trivial = at least one report was generated (session, session-src), always (web, web-src)",
+         "(d) END-TO-END: the same kinds of histories through driver.PProf with a real flag set (parseFlags -> option state, M_Flags), the Fetch "
+         "plug-in + fetch pipeline, the real binutils object tool; deterministic in every quick run: 4 sessions and 3 request sequences on a "
+         "profile of a real binary with disasm / weblist / /disasm / /source while intel_syntax changes (flag, assignment, URL); random: 40 "
+         "sessions + 20 request mixes with 0-4 option flags; two refused command lines. "
+         "distinct = sha256 of the input term; non-trivial = at least one report was generated (session, session-src, e2e), always (web, web-src, e2eweb)",
     spec_what="a report's output, the option state after a command, or the loaded profile depends on earlier commands/requests (C10 statement)",
     trusted_base=["translators gen-configtable, gen-commandtable (pprofCommands: name/hasParam, configHelp keys)",
                   "strings.TrimSpace/Fields modelled for ASCII white space (generated lines are ASCII)",
